@@ -277,6 +277,23 @@ func (i *interpreter) indexTable(tab array, idx value) value {
 	return &sym{term: term, kind: kInt, bk: bk}
 }
 
+// symElemPtr is the address of an element of a table of concrete integers at a symbolic index.
+type symElemPtr struct {
+	arr array
+	idx *sym
+}
+
+func allConcreteInts(a array) bool {
+	for _, e := range a {
+		switch e.(type) {
+		case int, int8, int16, int32, int64, uint, uint8, uint16, uint32, uint64, uintptr:
+		default:
+			return false
+		}
+	}
+	return true
+}
+
 func kindOfValue(v value) types.BasicKind {
 	switch v.(type) {
 	case int:
